@@ -85,3 +85,30 @@ def node_sig(node, marks=False, shift=0):
     finally:
         sys.setrecursionlimit(old)
     return ''.join(out)
+
+
+def f14_pattern(kinds):
+    """Mechanism of known finding F14 (libyaml): inside a flow sequence a KEY token is directly followed by VALUE,
+    FLOW-ENTRY or FLOW-SEQUENCE-END (an empty key of a single-pair mapping); libyaml then skips that next token.
+    kinds: token class names ('KeyToken', ...)."""
+    stack = []
+    for i, k in enumerate(kinds):
+        if k == 'FlowSequenceStartToken':
+            stack.append('seq')
+        elif k == 'FlowMappingStartToken':
+            stack.append('map')
+        elif k in ('FlowSequenceEndToken', 'FlowMappingEndToken'):
+            if stack:
+                stack.pop()
+        if k == 'KeyToken' and stack and stack[-1] == 'seq' and i + 1 < len(kinds) and \
+                kinds[i + 1] in ('ValueToken', 'FlowEntryToken', 'FlowSequenceEndToken'):
+            return True
+    return False
+
+
+def f14_text(text):
+    import yaml
+    try:
+        return f14_pattern([type(t).__name__ for t in yaml.scan(text, Loader=yaml.Loader)])
+    except Exception:
+        return False
